@@ -16,7 +16,7 @@ func init() {
 		const mp = "app/core/hydra/swamp/chronicler/v2/migrator/migrator.go"
 		const cp = "app/core/hydra/swamp/chronicler/chronicler.go"
 		names := []string{"dedupeLast", "writeBeforeDelete", "verifyBeforeDelete", "removeOnVerifyFail", "removeOnWriteFail", "removeOnOpenFail",
-			"emptyKeyIsError", "verifyValues", "skipsZeroLength", "nameFromMeta", "v1LoadIteratesMap"}
+			"emptyKeyIsError", "metaErrorAborts", "verifyValues", "refusesExisting", "skipsZeroLength", "nameFromMeta", "v1LoadIteratesMap"}
 		set := map[string]bool{}
 		put := func(n string, t Tri, where string) { fs.Tri(n, t, where); set[n] = true }
 		defer func() {
@@ -65,6 +65,48 @@ func init() {
 				put("writeBeforeDelete", TriOf(wr.Pos() < del.Pos()), at(wr))
 				put("verifyBeforeDelete", TriOf(vf.Pos() < del.Pos()), at(vf))
 			}
+			// a target path that is not free: a top-level
+			//   `if _, statErr := os.Stat(<target>); !errors.Is(statErr, os.ErrNotExist) { m.recordFailure(…); return }`
+			// before the writeV2File call, on the very expression handed to writeV2File.  No os.Stat of the target before the
+			// call at all = the writer opens whatever is there for appending.
+			if wr != nil && len(wr.Args) == 3 {
+				target := f.Str(wr.Args[0])
+				guard, other := false, false
+				var where ast.Node = wr
+				for _, st := range fd.Body.List {
+					if st.Pos() >= wr.Pos() {
+						break
+					}
+					ifs, ok := st.(*ast.IfStmt)
+					if !ok || ifs.Init == nil || !strings.Contains(f.Str(ifs.Init), "os.Stat("+target+")") {
+						if f.Contains(st, "os.Stat("+target+")") || f.Contains(st, "os.Lstat("+target+")") {
+							other = true
+						}
+						continue
+					}
+					as, ok := ifs.Init.(*ast.AssignStmt)
+					if !ok || len(as.Lhs) != 2 || f.Str(as.Lhs[0]) != "_" {
+						other = true
+						continue
+					}
+					ev := f.Str(as.Lhs[1])
+					cond := f.Str(ifs.Cond)
+					k := len(ifs.Body.List)
+					_, returns := ifs.Body.List[k-1].(*ast.ReturnStmt)
+					if (cond == "!errors.Is("+ev+", os.ErrNotExist)" || cond == "!os.IsNotExist("+ev+")") && ifs.Else == nil && returns &&
+						len(f.Calls(ifs.Body, "m.recordFailure")) == 1 && len(f.Calls(ifs.Body, "os.Remove")) == 0 && len(f.Calls(ifs.Body, "m.deleteV1Files")) == 0 {
+						guard, where = true, ifs
+					} else {
+						other = true
+					}
+				}
+				switch {
+				case guard && !other:
+					put("refusesExisting", Yes, at(where))
+				case !guard && !other:
+					put("refusesExisting", No, at(where))
+				}
+			}
 			// `if m.config.Verify { if err := m.verifyMigration(…); err != nil { os.Remove(hydFilePath) …; return } }`
 			if vfIf != nil {
 				found, returns := false, false
@@ -85,6 +127,36 @@ func init() {
 				})
 				if returns {
 					put("removeOnVerifyFail", TriOf(found), at(vfIf))
+				}
+			}
+			// `swampName, err := m.loadSwampNameFromMeta(folderPath)`: does the error branch leave the function
+			// (for anything but a missing meta file), or does it only log?
+			for i, st := range fd.Body.List {
+				as, ok := st.(*ast.AssignStmt)
+				if !ok || !f.Contains(as, "m.loadSwampNameFromMeta(") || i+1 >= len(fd.Body.List) {
+					continue
+				}
+				ifs, ok := fd.Body.List[i+1].(*ast.IfStmt)
+				if !ok || f.Str(ifs.Cond) != "err != nil" {
+					break
+				}
+				aborts := false
+				ast.Inspect(ifs.Body, func(n ast.Node) bool {
+					if inner, ok := n.(*ast.IfStmt); ok && strings.Contains(f.Str(inner.Cond), "os.ErrNotExist") && strings.HasPrefix(f.Str(inner.Cond), "!") {
+						if k := len(inner.Body.List); k > 0 {
+							if _, ok := inner.Body.List[k-1].(*ast.ReturnStmt); ok && len(f.Calls(inner.Body, "m.recordFailure")) == 1 {
+								aborts = true
+							}
+						}
+					}
+					return true
+				})
+				onlyLogs := len(ifs.Body.List) == 1 && f.Contains(ifs.Body.List[0], "slog.Warn(")
+				switch {
+				case aborts:
+					put("metaErrorAborts", Yes, at(ifs))
+				case onlyLogs:
+					put("metaErrorAborts", No, at(ifs))
 				}
 			}
 			// the name handed to writeV2File: the variable assigned from loadSwampNameFromMeta
